@@ -1,7 +1,12 @@
 import Vet.Props.Build
 import Vet.Props.C15
+import Vet.Props.C06Publishers
 #print axioms Vet.C06_wildcard_edge_iff
 #print axioms Vet.C06_trusted_edge_iff
 #print axioms Vet.C06_other_crates_irrelevant
 #print axioms Vet.build_sound
 #print axioms Vet.C06_cap
+#print axioms Vet.Pub.C06_publishers
+#print axioms Vet.Pub.C06_unknown_publisher_no_record
+#print axioms Vet.Pub.C06_publisher_table_iff
+#print axioms Vet.Pub.publishers_example
